@@ -769,6 +769,34 @@ func (ex *Exec) mergeVals(hint string, vs []Val, conds []Term) Val {
 		if same {
 			return v0
 		}
+		if v0.T.Sort == SIface {
+			// interface values of one known dynamic type: merge the payloads, keep the type visible (narrowing)
+			dyn := ""
+			var payloads []Val
+			okAll := true
+			for _, v := range vs {
+				s, isSc := v.(Scalar)
+				if !isSc {
+					okAll = false
+					break
+				}
+				h, a := splitApp(s.T.S)
+				if h != "mk-iface" || len(a) != 2 {
+					okAll = false
+					break
+				}
+				if _, lit := litVal(a[0]); !lit || (dyn != "" && dyn != a[0]) {
+					okAll = false
+					break
+				}
+				dyn = a[0]
+				payloads = append(payloads, Scalar{Term{a[1], SInt}, nil})
+			}
+			if okAll && dyn != "" {
+				p := ex.scalar(ex.mergeVals(hint, payloads, conds))
+				return Scalar{MkIface(Term{dyn, SInt}, p), v0.Ty}
+			}
+		}
 		acc := ex.scalar(vs[len(vs)-1])
 		for i := len(vs) - 2; i >= 0; i-- {
 			acc = Ite(conds[i], ex.scalar(vs[i]), acc)
